@@ -86,9 +86,6 @@ func c03Specs(tier string) []*h.SeqSpec {
 				if had && r.Status != 202 {
 					return []h.Violation{h.V("tag-delete", "tag-delete-refused", "delete of existing tag %s answered %s", t, r)}
 				}
-				if !had && (r.Status < 400 || r.Status >= 500) {
-					return []h.Violation{h.V("tag-delete", "absent-tag-delete-status", "delete of absent tag %s answered %s", t, r)}
-				}
 				delete(m.Tags, t)
 				return nil
 			}})
@@ -101,9 +98,6 @@ func c03Specs(tier string) []*h.SeqSpec {
 				had := m.Man[fx.dig[i]]
 				if had && r.Status != 202 {
 					return []h.Violation{h.V("digest-delete", "digest-delete-refused", "delete of present manifest M%d answered %s", i+1, r)}
-				}
-				if !had && (r.Status < 400 || r.Status >= 500) {
-					return []h.Violation{h.V("digest-delete", "absent-digest-delete-status", "delete of absent manifest answered %s", r)}
 				}
 				delete(m.Man, fx.dig[i])
 				for t, d := range m.Tags {
